@@ -36,12 +36,14 @@ def value_for(name: str, choice: dict):
     """Value of a symbolic input under the finite choice (per base name; tagged names like `M<...>` get derived values)."""
     base = name.split("<")[0]
     salt = "" if base == name else name
+    # the diagram parsed from another path: other names (one mark per distinct path term)
+    mark = "" if not salt else "'" if salt[len(base):] == "<PATH2>" else "'" + str(_h(salt[len(base):]) % 89)
     if base == "M":
         ms = choice["M"]
-        return ms if not salt else frozenset(x + "'" for x in ms)
+        return ms if not salt else frozenset(x + mark for x in ms)
     if base == "D":
         d = choice["D"]
-        return d if not salt else {k + "'": frozenset(x + "'" for x in v) for k, v in d.items()}
+        return d if not salt else {k + mark: frozenset(x + mark for x in v) for k, v in d.items()}
     if base == "FLAG":
         return choice["FLAG"]
     if base == "P":
@@ -341,6 +343,11 @@ class Interp:
             if a is None or b is None:
                 return a is b
             return self.freeze(a) == self.freeze(b)
+        if tag == "raised" and len(c[2]) == 1 and c[2][0].startswith("not "):
+            # left by an exception that is no instance of the named classes
+            if self.salt < 2 or any(self.cond(("raised", c[1], (x,)), env) for x in c[2][0][4:].split("|")):
+                return False
+            return self.oracle("raised", c[1], c[2], self.scope(env))
         if tag == "raised":
             if self.salt < 2:
                 return True  # the first two assignments: every rule is violated
